@@ -2,7 +2,11 @@
 // decided along the configuration/schedule axis: simulated processor count seen by the MT kernels,
 // worker schedules, garbage-filling allocator.  See DESIGN.md section 3.
 #include "lib.hpp"
+// the documented NIPALS convergence criterion of PCA (pca.h at the pinned commit); deliberately NOT taken from the header of
+// the tree under test: a tree that loosens the criterion must not loosen the oracle with it
+#define DOC_PCA_CRITERION 1e-10
 #include "linalg.hpp"
+#include "nipals_tol.hpp"
 #include <algorithm>
 
 struct PCase { Mat X; int scaling, npc, nproc, transform; double rho_gen; };
@@ -59,6 +63,7 @@ struct HPca : Harness {
     p.seti("const_cols", wr.chance(0.25) ? (int)wr.range(1, std::max(1, pp / 3)) : 0);
     p.seti("transform", (int)wr.below(3));  // C02: 0 permute objects, 1 permute variables, 2 rotate
     p.setd("rho", wr.uniform(0.3, 0.85));
+    p.setd("scale_exp", wr.chance(0.5) ? 1.0 : wr.uniform(-2.0, 3.0));  // overall magnitude of the singular values
     p.setu("data.seed", wr.next() >> 4);
     return p;
   }
@@ -71,7 +76,7 @@ struct HPca : Harness {
       int r = std::min(n, pp);
       LMat U = lrandom_orthogonal(n, dr), V = lrandom_orthogonal(pp, dr);
       double rho = sqrt(p.getd("rho", 0.7));  // eigenvalue ratio rho <=> singular value ratio sqrt(rho)
-      std::vector<LD> s(r); LD cur = 10.0L * (1 + dr.unit() * 5);
+      std::vector<LD> s(r); LD cur = powl(10.0L, (LD)p.getd("scale_exp", 1.0)) * (1 + dr.unit() * 5);
       for (int k = 0; k < r; k++) { s[k] = cur; cur *= rho * dr.uniform(0.6, 1.0); }
       for (int i = 0; i < n; i++) for (int j = 0; j < pp; j++) { LD v = 0; for (int k = 0; k < r; k++) v += U[i][k] * s[k] * V[j][k]; X[i][j] = (double)v; }
       for (int j = 0; j < pp; j++) { double off = dr.uniform(-20, 20); if (scaling == 5 && fabs(off) < 1) off = off < 0 ? -1.5 : 1.5; for (int i = 0; i < n; i++) X[i][j] += off; }
@@ -178,7 +183,7 @@ struct HPca : Harness {
       }
       for (int k = 0; k < npc && !o.violation; k++) { LD s = 0; for (int i = 0; i < n; i++) { LD d = ldot(Ek[i], P[k]); s += d * d; } if (sqrtl(s) > 1e-8L * (en + 1e-300L)) { char m[200]; snprintf(m, sizeof m, "residual is not orthogonal to loading %d: |R p| = %.3Lg, |E| = %.3Lg", k, sqrtl(s), en); o.fail("residual-not-orthogonal", m); } }
       // variance bookkeeping, tolerance derived from the documented criterion (see DESIGN.md)
-      double tau = 200.0 * npc * sqrt((double)n * PCACONVERGENCE), sum = 0;
+      double tau = 200.0 * npc * sqrt((double)n * DOC_PCA_CRITERION), sum = 0;
       for (int k = 0; k < npc && !o.violation; k++) {
         sum += M.varexp[k];
         if (!(M.varexp[k] >= -tau)) o.fail("variance-bookkeeping", "explained variance is negative or NaN");
@@ -197,29 +202,18 @@ struct HPca : Harness {
       // ---- C02: spectral correctness against a Jacobi eigen-decomposition of E'E, and equivariance
       LMat G = lgram(E); LVec ev; LMat V; ljacobi(G, ev, V);
       LD tr = 0; for (LD v : ev) tr += v;
-      double rho = 0; for (int k = 0; k < npc && k + 1 < (int)ev.size(); k++) if (ev[k] > 0) rho = fmax(rho, (double)(ev[k + 1] / ev[k]));
-      if (rho > 0.9 || tr <= 0) { o.counters["skipped.spectrum_not_separated"]++; return o; }
-      std::vector<double> eps(npc);
-      for (int k = 0; k < npc; k++) eps[k] = 10.0 * (k + 1) * sqrt((double)n * PCACONVERGENCE) / ((1 - rho) / 2);
-      // components whose eigenvalue is below what inexact deflation of the earlier ones can leave behind are not decidable:
-      // deflating component j with angle error d_j leaves up to lambda_j*d_j^2 in later eigenvalues, d_j <= sqrt(n*criterion)*r/(1-r)
-      int kmax = npc;
-      // The criterion watches the score vector t = E p, in which a loading error along the i-th axis is damped by sigma_i/sigma_j;
-      // when component j stops, its loading may still be off along axis i by e_i <= sqrt(n*crit)*(sigma_j/sigma_i)*r/(1-r), and
-      // deflating with it leaves (sigma_j e_i)^2 in eigenvalue i.  Component k is decidable only while the sum of these
-      // relative contaminations stays well below its tolerance.
-      for (int k = 0; k < npc; k++) {
-        double rk = (k + 1 < (int)ev.size() && ev[k] > 0) ? (double)(ev[k + 1] / ev[k]) : 0.0;
-        LD contamination = 0;
-        for (int j = 0; j < k; j++) { double rj = (double)(ev[j + 1] / ev[j]), re = (1 + rj) / 2; LD q = ev[j] / ev[k]; contamination += (LD)n * PCACONVERGENCE * q * q * (re / (1 - re)) * (re / (1 - re)); }
-        if (!(ev[k] > 0) || contamination > 0.05L * eps[k] * (1 - rk)) { kmax = k; o.counters["skipped.components_below_deflation_noise"] += npc - k; break; }
-      }
+      if (tr <= 0) { o.counters["skipped.no_variance"]++; return o; }
+      NipalsTol tol = nipals_tolerances(ev, npc, n, DOC_PCA_CRITERION);   // see oracle/nipals_tol.hpp for the derivation
+      int kmax = tol.kmax;
+      if (kmax < npc) o.counters["skipped.components_undecidable"] += npc - kmax;
+      if (kmax == 0) { o.counters["skipped.spectrum_not_separated"]++; return o; }
+      if (getenv("HPCA_DEBUG")) { for (int k = 0; k < npc; k++) { LVec vk = lcol(V, k); LD c = fabsl(ldot(P[k], vk)); fprintf(stderr, "k=%d ev=%.6Lg ratio=%.4Lg varexp=%.8g want=%.8Lg sin=%.3Lg allowed=%.3g evrel=%.3g kmax=%d\n", k, ev[k], k + 1 < (int)ev.size() ? ev[k + 1] / ev[k] : 0.0L, M.varexp[k], ev[k] / tr * 100, sqrtl(fmaxl(0, 1 - c * c)), tol.sin_angle[k], tol.eval_rel[k], kmax); } }
       for (int k = 0; k < kmax && !o.violation; k++) {
         LVec vk = lcol(V, k);
-        LD c = fabsl(ldot(P[k], vk));
-        if (c < 1 - eps[k]) { char m[240]; snprintf(m, sizeof m, "loading %d is not the %d-th principal axis: |<p,v>| = %.6Lg (allowed >= %.6g, eigenvalue ratio bound %.3f)", k, k + 1, c, 1 - eps[k], rho); o.fail("not-principal-axis", m); }
+        LD c = fabsl(ldot(P[k], vk)), sn = sqrtl(fmaxl(0, 1 - c * c));
+        if (sn > tol.sin_angle[k]) { char m[260]; snprintf(m, sizeof m, "loading %d is not the %d-th principal axis: sin(angle) = %.3Lg, the documented criterion allows %.3g (eigenvalue ratio to the next %.3Lg)", k, k + 1, sn, tol.sin_angle[k], k + 1 < (int)ev.size() ? ev[k + 1] / ev[k] : 0.0L); o.fail("not-principal-axis", m); }
         LD want = ev[k] / tr * 100;
-        if (fabsl((LD)M.varexp[k] - want) > eps[k] * want + 1e-9L) { char m[240]; snprintf(m, sizeof m, "explained variance %d is %.8g, eigenvalue/trace gives %.8Lg", k, M.varexp[k], want); o.fail("wrong-eigenvalue", m); }
+        if (!o.violation && fabsl((LD)M.varexp[k] - want) > tol.eval_rel[k] * want + 1e-9L) { char m[240]; snprintf(m, sizeof m, "explained variance %d is %.10g, eigenvalue/trace gives %.10Lg (allowed relative error %.3g)", k, M.varexp[k], want, tol.eval_rel[k]); o.fail("wrong-eigenvalue", m); }
       }
       o.counters["probe.spectrum_checked"]++;
       if (!o.violation) {
@@ -234,7 +228,7 @@ struct HPca : Harness {
         fill_outcome_from_sim(o, F.sr, plan_strategy);
         if (F.rc == SIM_OK && F.out.scores.size() == (size_t)n) {
           for (int k = 0; k < kmax && !o.violation; k++) {
-            double tol = 2 * sqrt(2 * eps[k]) + 1e-8;
+            double tolk = 3 * tol.sin_angle[k] + 1e-8;
             LVec p2(pp), t2(n), pe(pp), te(n);
             for (int j = 0; j < pp; j++) p2[j] = F.out.loadings[j][k];
             for (int i = 0; i < n; i++) t2[i] = F.out.scores[i][k];
@@ -245,8 +239,8 @@ struct HPca : Harness {
             for (int j = 0; j < pp; j++) dp += (p2[j] - sgn * pe[j]) * (p2[j] - sgn * pe[j]);
             for (int i = 0; i < n; i++) dt += (t2[i] - sgn * te[i]) * (t2[i] - sgn * te[i]);
             static const char *tn_[] = {"permuting objects", "permuting variables", "rotating the data"};
-            if (sqrtl(dp) > tol) { char m[240]; snprintf(m, sizeof m, "%s does not transform loading %d accordingly (difference %.3Lg, allowed %.3g)", tn_[tf], k, sqrtl(dp), tol); o.fail("not-equivariant", m); }
-            else if (sqrtl(dt) > tol * (tn + 1e-300L)) { char m[240]; snprintf(m, sizeof m, "%s does not transform score %d accordingly (relative difference %.3Lg, allowed %.3g)", tn_[tf], k, sqrtl(dt) / tn, tol); o.fail("not-equivariant", m); }
+            if (sqrtl(dp) > tolk) { char m[240]; snprintf(m, sizeof m, "%s does not transform loading %d accordingly (difference %.3Lg, allowed %.3g)", tn_[tf], k, sqrtl(dp), tolk); o.fail("not-equivariant", m); }
+            else if (sqrtl(dt) > tolk * (tn + 1e-300L)) { char m[240]; snprintf(m, sizeof m, "%s does not transform score %d accordingly (relative difference %.3Lg, allowed %.3g)", tn_[tf], k, sqrtl(dt) / tn, tolk); o.fail("not-equivariant", m); }
           }
           o.counters[std::string("probe.equivariance_") + (tf == 0 ? "objects" : tf == 1 ? "variables" : "rotation")]++;
         }
